@@ -240,7 +240,9 @@ func propagationForCalledTo(
 			)
 		}
 
-		return false
+		// the type recorded by an earlier round is replaced, not a declaration to check
+		// the first call site of this round against
+		return true
 	}
 
 	if definedArgT.IsMatchType(argT) {
